@@ -79,8 +79,23 @@ def replay_lengths_angles(data):
     cos = [data["ca"], data["cb"], data["cg"]]
     ang = [math.acos(max(-1, min(1, x))) for x in cos]
     how = data.get("how", "radians")
-    if how == "degrees":
+    if how in ("degrees", "arrays"):
+        # arguments given as float64 arrays (as a caller holding cell parameters in arrays does): they are not modified, and a second
+        # cell built from the same arrays is the same cell
+        la, da, ra = np.array(lengths, dtype=np.float64), np.degrees(np.array(ang, dtype=np.float64)), np.array(ang, dtype=np.float64)
+        la0, da0, ra0 = la.copy(), da.copy(), ra.copy()
+        pre = []
+        for rep in range(2):
+            uc_d = UnitCell.from_lengths_and_angles(la, da, unit="degrees")
+            uc_r = UnitCell.from_lengths_and_angles(la, ra)
+            if not (np.array_equal(la, la0) and np.array_equal(da, da0) and np.array_equal(ra, ra0)):
+                pre.append("from_lengths_and_angles modifies the arrays it is given")
+                la, da, ra = la0.copy(), da0.copy(), ra0.copy()
+            for tag_, u_ in (("degrees", uc_d), ("radians", uc_r)):
+                pre += ["cell %d from the same %s arrays: %s" % (rep + 1, tag_, b_) for b_ in oracle(u_, lengths, cos)[:1]]
         uc = UnitCell.from_lengths_and_angles(lengths, np.degrees(ang), unit="degrees")
+        bad0 = oracle(uc, lengths, cos)
+        return bool(pre or bad0), (pre + bad0)[:4]
     elif how == "vectors":
         uc0 = UnitCell.from_lengths_and_angles(lengths, ang)
         uc = UnitCell(np.array(uc0.direct))
@@ -288,6 +303,17 @@ def run(ctx):
     ctx.add_paths(ex)
     handle("reset_lengths_angles", paths, ex, lengths, [SymAngle(x.c, x.s, "rad") for x in angles], "reset")
 
+    # the symbolic runs hand over lists; arrays as arguments (which a constructor could modify or alias) on the real class
+    gbad = []
+    for a_, b_, c_, ca_, cb_, cg_ in ((5.1, 7.2, 9.3, 0.36, -0.13, 0.17), (4.0, 4.0, 11.5, 0.0, 0.0, -0.5), (6.2, 6.2, 6.2, 0.3, 0.3, 0.3)):
+        d_ = {"a": a_, "b": b_, "c": c_, "ca": ca_, "cb": cb_, "cg": cg_, "how": "arrays"}
+        r_, det_ = replay_lengths_angles(d_)
+        if r_:
+            gbad.append((d_, det_))
+    ctx.record("from_lengths_and_angles with float64 arrays of lengths and angles (degrees and radians): arguments untouched, a second cell from the same arrays is the same cell (ground instances, real class)",
+               "holds" if not gbad else "counterexample", nontrivial=True, method="ground instances")
+    if gbad:
+        ctx.violation("la:arrays", "cell parameters given as arrays: %s" % gbad[0][1][0], gbad[0][0], replay_lengths_angles)
     part_vectors(ctx, UC)
 
     # -- route 1 -> route 2: cell from parameters, rebuilt from its vectors, has the same parameters
